@@ -1,7 +1,9 @@
 (* C18 -- proofs about the model of Sys/GitCfg.v.  Decidable checks on programs are proved sound once, for every
    state; the property theorems for the generated programs (Gen/GitCfg.v) then follow by computation. *)
 From Coq Require Import String Ascii List NArith Bool Lia.
-From NB Require Import Base.Json Sys.GitCfg Gen.GitCfg.
+From NB Require Import Base.Json.
+From NB Require Import Sys.GitCfg.
+From NB Require Import Gen.GitCfg.
 Import ListNotations.
 
 (* ------------------------------------------------------------------ keys and configuration maps *)
